@@ -413,4 +413,48 @@ def schemeFolder (schemePath : Str) : PPath := (parsePath schemePath).parent
 def SourceOK (cwd : List Str) (folder : PPath) (src : Str) : Prop :=
   (parsePath src).abs = true ∨ isProperPrefix (resolveP cwd folder) (resolveP cwd (parsePath src)) = true
 
+/-! ### files of datasets -/
+
+/-- the path `save_result` hands to the dataset writer for label `l`: `result_folder / f"{l}.{fmt}"` -/
+def dataFile (resultPath dfmt l : Str) : Str := inFolder (resultFolder resultPath) (dataName dfmt l)
+
+theorem plain_dataName_nc (l : Str) (h : '/' ∉ l) : PlainName (dataName (strOf "nc") l) := by
+  have hlen : 3 ≤ (dataName (strOf "nc") l).length := by simp [dataName, strOf]
+  refine ⟨⟨?_, ?_, ?_⟩, ?_⟩
+  · intro e; rw [e] at hlen; simp at hlen
+  · simp [dataName, strOf, h]
+  · unfold isDot
+    cases hh : (dataName (strOf "nc") l == ['.']) with
+    | false => rfl
+    | true => have := eq_of_beq hh; rw [this] at hlen; simp at hlen
+  · unfold isDotDot
+    cases hh : (dataName (strOf "nc") l == ['.', '.']) with
+    | false => rfl
+    | true => have := eq_of_beq hh; rw [this] at hlen; simp at hlen
+
+theorem dataFile_injective (resultPath dfmt l1 l2 : Str)
+    (h1 : PlainName (dataName dfmt l1)) (h2 : PlainName (dataName dfmt l2))
+    (h : dataFile resultPath dfmt l1 = dataFile resultPath dfmt l2) : l1 = l2 := by
+  have hf := resultFolder_norm resultPath
+  have e1 := rel_inFolder [] (resultFolder resultPath) _ hf h1
+  have e2 := rel_inFolder [] (resultFolder resultPath) _ hf h2
+  unfold dataFile at h
+  rw [h, e2] at e1
+  exact (List.append_cancel_right e1).symm
+
+theorem resolve_dataFile (cwd : List Str) (resultPath dfmt l : Str) (h : PlainName (dataName dfmt l)) :
+    resolveP cwd (parsePath (dataFile resultPath dfmt l))
+      = resolveP cwd (parsePath (resultFolder resultPath).asPosix) ++ [dataName dfmt l] := by
+  have hf := resultFolder_norm resultPath
+  have hfile : (joinP (resultFolder resultPath) ⟨false, [dataName dfmt l]⟩).Norm :=
+    joinP_norm _ _ hf (by intro p hp; simp only [List.mem_singleton] at hp; subst hp; exact h.1)
+  simp only [dataFile, inFolder, parsePath_plain _ h]
+  rw [parsePath_asPosix _ hfile, parsePath_asPosix _ hf, resolveP_joinP_rel,
+    normStack_noDD _ _ (by intro p hp; simp only [List.mem_singleton] at hp; subst hp; exact h.2)]
+  simp
+
+theorem saveResult_data (cwd : List Str) (resultPath : Str) (report filtered : Bool) (pfmt dfmt : Str) (s : Srcs) :
+    (saveResult cwd resultPath report filtered pfmt dfmt s).srcs.data
+      = s.data.map (fun x => (x.1, dataFile resultPath dfmt x.1)) := rfl
+
 end Glotaran.C17
